@@ -1,4 +1,5 @@
 import Neutrino.Props.C01
+import Neutrino.Props.C01Trans
 open Neutrino.BM
 #print axioms BM.inv_step
 #print axioms C01_chain_valid_partial
@@ -19,3 +20,10 @@ open Neutrino.BM
 #print axioms C01_ctx_connect_loop
 #print axioms ctx_reorg_small_window_counterexample
 #print axioms C01_next_checkpoint_every_event
+#print axioms Neutrino.BM.C01_trans_findNextHeaderCheckpoint
+#print axioms Neutrino.BM.C01_trans_findPreviousHeaderCheckpoint
+#print axioms Neutrino.BM.C01_trans_checkpoints_passed
+#print axioms Neutrino.BM.C01_trans_invertLowestOne
+#print axioms Neutrino.BM.C01_trans_getAncestorHeight
+#print axioms Neutrino.BM.C01_trans_getAncestorHeight_nonpos
+#print axioms Neutrino.BM.C01_trans_areHeadersConnected
